@@ -14,7 +14,8 @@ META = dict(
     level_text=('Theorems (any specification, any valid parents / populations, any PRNG meeting the contract of random.Random, any operator expression): '
                 'selectors return members of their input in the documented number; Uniform and Swap mutation, point-wise (Uniform, Sample, Average, WeightedAverage under '
                 'every where filter), segment-wise (KPoint, Segmented) and permutation (PMX, Order, Cycle) recombination never return a child that is not a valid, aligned '
-                'decision of the specification; every expression built with >> | & + - ^ * ** [] ~ with_prob / Choice / Conditional / for_each / flatten / until_change over '
+                'decision of the specification; Uniform mutation always finds the node it drew (total without custom points) and point-wise recombination never leaves a parent '
+                'without decisions (from_dict cannot fail with "not found"); selector pipelines return members; the permutation crossovers only propose permutations (exhaustive for 2..4 values); every expression built with >> | & + - ^ * ** [] ~ with_prob / Choice / Conditional / for_each / flatten / until_change over '
                 'primitives that are closed is closed (induction on the expression: ALL operator programs), hence every expression over the shipped operators. '
                 'Tie: the real operators run with a recording random.Random; the model replays the recorded draws and must print the same population (identities of surviving '
                 'inputs, every new DNA with the spec address bound to each node, or the same exception class) on every case; a direct oracle (spec.validate, alignment of '
